@@ -1029,6 +1029,273 @@ def py_scrypt(pw, salt):
         return None
 
 
+# ---- C15: an INDEPENDENT writer of the documented locked-key format: RFC 7914 scrypt by OpenSSL (hashlib), RFC 8439
+# ChaCha20-Poly1305 written out here; nothing of the implementation under test takes part in building these strings
+def c15_chacha_block(key, counter, nonce):
+    """RFC 8439 section 2.3"""
+    import struct
+    M = 0xFFFFFFFF
+    st = list(struct.unpack("<4I", b"expand 32-byte k")) + list(struct.unpack("<8I", key)) + [counter & M] + list(struct.unpack("<3I", nonce))
+    x = list(st)
+
+    def qr(a, b, c, d):
+        x[a] = (x[a] + x[b]) & M
+        x[d] ^= x[a]
+        x[d] = ((x[d] << 16) | (x[d] >> 16)) & M
+        x[c] = (x[c] + x[d]) & M
+        x[b] ^= x[c]
+        x[b] = ((x[b] << 12) | (x[b] >> 20)) & M
+        x[a] = (x[a] + x[b]) & M
+        x[d] ^= x[a]
+        x[d] = ((x[d] << 8) | (x[d] >> 24)) & M
+        x[c] = (x[c] + x[d]) & M
+        x[b] ^= x[c]
+        x[b] = ((x[b] << 7) | (x[b] >> 25)) & M
+    for _ in range(10):
+        qr(0, 4, 8, 12), qr(1, 5, 9, 13), qr(2, 6, 10, 14), qr(3, 7, 11, 15)
+        qr(0, 5, 10, 15), qr(1, 6, 11, 12), qr(2, 7, 8, 13), qr(3, 4, 9, 14)
+    return struct.pack("<16I", *[(a + b) & M for a, b in zip(x, st)])
+
+
+def c15_poly1305(key, msg):
+    """RFC 8439 section 2.5"""
+    r = int.from_bytes(key[:16], "little") & 0x0FFFFFFC0FFFFFFC0FFFFFFC0FFFFFFF
+    s = int.from_bytes(key[16:32], "little")
+    acc, p = 0, (1 << 130) - 5
+    for i in range(0, len(msg), 16):
+        acc = (acc + int.from_bytes(msg[i:i + 16] + b"\x01", "little")) * r % p
+    return ((acc + s) & ((1 << 128) - 1)).to_bytes(16, "little")
+
+
+def c15_aead_seal(key, nonce, ad, pt):
+    """RFC 8439 section 2.8: ciphertext || tag"""
+    ks = b"".join(c15_chacha_block(key, 1 + i, nonce) for i in range((len(pt) + 63) // 64))
+    ct = bytes(a ^ b for a, b in zip(pt, ks))
+    pad = lambda b: b"\x00" * (-len(b) % 16)
+    mac = ad + pad(ad) + ct + pad(ct) + len(ad).to_bytes(8, "little") + len(ct).to_bytes(8, "little")
+    return ct + c15_poly1305(c15_chacha_block(key, 0, nonce)[:32], mac)
+
+
+C15_RFC8439_KAT = (bytes(range(0x80, 0xa0)), bytes.fromhex("070000004041424344454647"), bytes.fromhex("50515253c0c1c2c3c4c5c6c7"),
+                   b"Ladies and Gentlemen of the class of '99: If I could offer you only one tip for the future, sunscreen would be it.",
+                   "d31a8d34648e60db7b86afbc53ef7ec2", "1ae10b594f09e26a7e902ecbd0600691")
+
+
+def c15_ref_blob(sk, pw, salt):
+    """the 84 bytes a conforming implementation writes for (key, password, salt); None when OpenSSL's scrypt is unavailable"""
+    k = py_scrypt(pw, salt)
+    if k is None:
+        return None
+    return VERSION + salt + c15_aead_seal(k, bytes(12), VERSION, sk)
+
+
+def c15_salt_shapes(ctx, sk):
+    """(label, salt): salts a random generator practically never draws but any conforming writer may use"""
+    rng = ctx.rng
+    c = rng.randrange(1, 255)
+    pos = rng.randrange(32)
+    one = bytearray(32)
+    one[pos] = rng.randrange(1, 256)
+    hole = bytearray(ctx.rbytes(32))
+    hole[pos] = 0
+    shapes = [("zero", bytes(32)), ("ff", b"\xff" * 32), ("const", bytes([c]) * 32), ("last-bit", bytes(31) + b"\x01"),
+              ("first-bit", b"\x80" + bytes(31)), ("first-byte", bytes([rng.randrange(1, 256)]) + bytes(31)),
+              ("zero-head", bytes(16) + ctx.rbytes(16)), ("zero-tail", ctx.rbytes(16) + bytes(16)),
+              ("ascending", bytes(range(32))), ("version-x8", VERSION * 8), ("salt-is-key", sk),
+              ("one-byte", bytes(one)), ("one-zero-byte", bytes(hole)), ("random", ctx.rbytes(32))]
+    if ctx.thorough():
+        shapes += [("const", bytes([b]) * 32) for b in (0x01, 0x20, 0x30, 0x7f, 0x80, 0xfe)]
+        shapes += [("one-bit", (1 << rng.randrange(256)).to_bytes(32, "big")) for _ in range(6)]
+        shapes += [("zero-words", b"".join(bytes(4) if rng.random() < 0.6 else ctx.rbytes(4) for _ in range(8))) for _ in range(4)]
+        shapes += [("ascii", bytes(rng.choice(b"0123456789abcdef") for _ in range(32)))]
+    return shapes
+
+
+def c15_envable(p):
+    """can this password be handed to the process in KESTREL_PASSWORD?"""
+    try:
+        p.decode("utf-8")
+    except UnicodeDecodeError:
+        return False
+    return b"\x00" not in p
+
+
+def c15_other_password(rng, p):
+    for _ in range(20):
+        q = rng.choice([p + b"x", p[:-1], rng.choice(LOCK_PASSWORDS), rng.choice(BOUNDARY_PASSWORDS), p.swapcase()])
+        if hmac_key(q) != hmac_key(p):
+            return q
+    return p + b"\x01"
+
+
+def c15_foreign_cases(self, ctx):
+    """locked strings built by the independent writer.  Returns (cases, foreign) with foreign = [(label, sk, pw, salt, blob)]"""
+    rng = ctx.rng
+    cases, foreign = [], []
+    key, nonce, ad, pt, c0, tag = C15_RFC8439_KAT
+    kat = c15_aead_seal(key, nonce, ad, pt)
+    if kat[:16].hex() != c0 or kat[-16:].hex() != tag:
+        ctx.broken.append({"kind": "machinery", "what": "C15 reference writer: RFC 8439 self-test of the Python AEAD failed"})
+        return cases, foreign
+    if py_scrypt(b"", bytes(32)) is None:
+        self.count(ctx, "foreign-writer:SKIPPED-no-openssl-scrypt")
+        return cases, foreign
+    # passwords: any byte string; the three most special salts get passwords that can also travel through the environment
+    pool = LOCK_PASSWORDS + BOUNDARY_PASSWORDS
+    envable = [p for p in pool if c15_envable(p)]
+    sk0 = ctx.rbytes(32)
+    shapes = c15_salt_shapes(ctx, sk0)
+    for i, (label, salt) in enumerate(shapes):
+        sk = sk0 if label == "salt-is-key" else ctx.rbytes(32)
+        pw = rng.choice(envable if i < 3 else pool)
+        foreign.append((label, sk, pw, salt, c15_ref_blob(sk, pw, salt)))
+    # the all-zero salt always comes with a second, fully degenerate triple: zero key, empty password
+    foreign.append(("zero", bytes(32), b"", bytes(32), c15_ref_blob(bytes(32), b"", bytes(32))))
+    for label, sk, pw, salt, blob in foreign:
+        R = base64.b64encode(blob)
+        tg = ["foreign", "foreign-salt-" + label]
+        cases.append(KCase("sk_try", s=R, tags=tg,
+                           oracle=(lambda r: None if r["code"] == 0 else
+                                   ("a string in the documented format (written by a conforming implementation) is a well-formed private key", r["raw"][:200]))))
+        cases.append(KCase("sk_unlock", s=R, pw=pw, tags=tg,
+                           oracle=(lambda r, sk=sk, salt=salt: None if r["code"] == 0 and r["out"] == sk else
+                                   ("a key locked by a conforming implementation (salt %s) unlocks with its password to the original key %s"
+                                    % (salt.hex(), sk.hex()), r["raw"][:200]))))
+        cases.append(KCase("sk_lock", sk=sk, pw=pw, salt=salt, tags=tg,
+                           oracle=(lambda r, R=R: None if r["code"] == 0 and r["out"] == R else
+                                   ("lock(key, pw, salt) is the string a conforming implementation writes: %s" % R.decode(), r["raw"][:300]))))
+        cases.append(KCase("sk_unlock", s=R, pw=c15_other_password(rng, pw), tags=tg + ["wrong-password"], oracle=must_fail("another password")))
+    # a special salt with ONE bit changed (ciphertext and tag untouched) is a changed blob
+    for label, sk, pw, salt, blob in ([f for f in foreign if f[0] in ("zero", "ff", "const", "one-byte")][:4] if not ctx.thorough() else foreign):
+        fb = props.flip(blob, 32 + rng.randrange(256))
+        cases.append(KCase("sk_unlock", s=base64.b64encode(fb), pw=pw, tags=["foreign", "foreign-salt-flip"], oracle=must_fail("a changed salt bit")))
+    return cases, foreign
+
+
+def c15_length_cases(self, ctx, foreign):
+    """blobs of every length around 84 made from conforming 84-byte blobs: cut short, and followed / preceded by zero,
+    0xFF, random and copied bytes.  Only the 84-byte blob itself is a locked key."""
+    rng = ctx.rng
+    cases = []
+    bases = [f for f in foreign if f[0] == "random"][:1] + ([f for f in foreign if f[0] == "zero"][:1] if ctx.thorough() else [])
+    for label, sk, pw, salt, blob in bases:
+        variants = []          # (tag, bytes)
+        cuts = [0, 1, 2, 3, 4, 5, 35, 36, 37, 52, 67, 68, 69, 82, 83] + [rng.randrange(6, 82) for _ in range(3)]
+        if ctx.thorough():
+            cuts = list(range(84))
+        for n in cuts:
+            variants.append(("cut", blob[:n]))
+        for n in (1, 2, 16, 48, 83):
+            variants.append(("cut-front", blob[84 - n:]))
+        grows = [1, 2, 3, 4, 16, 84] + [rng.randrange(5, 120) for _ in range(2)]
+        if ctx.thorough():
+            grows = list(range(1, 100)) + [168, 252]
+        for k in grows:
+            fills = [("zero", bytes(k)), ("ff", b"\xff" * k), ("random", ctx.rbytes(k)), ("copy-head", (blob * 4)[:k]),
+                     ("copy-tail", (blob * 4)[-k:])]
+            if not ctx.thorough() and k not in (1, 2, 84):
+                fills = rng.sample(fills, 2)
+            for fl, x in fills:
+                variants.append(("grow-" + fl, blob + x))
+        # a conforming blob as the TAIL of a longer string (every salt differs here: kept few)
+        for k in ([1, 84] + [rng.randrange(2, 84)]) if not ctx.thorough() else [1, 2, 3, 4, 36, 84]:
+            variants.append(("grow-front", (ctx.rbytes(k) if k != 84 else blob) + blob))
+        # positive control: the 84-byte blob itself
+        Rb = base64.b64encode(blob)
+        cases.append(KCase("sk_unlock", s=Rb, pw=pw, tags=["foreign-len", "foreign-len-84"],
+                           oracle=(lambda r, sk=sk: None if r["code"] == 0 and r["out"] == sk else
+                                   ("the 84-byte string itself unlocks", r["raw"][:200]))))
+        seen = set()
+        for tg, b in variants:
+            if len(b) == 84 or b in seen:
+                continue
+            seen.add(b)
+            forms = [base64.b64encode(b)]
+            if len(b) % 3 and rng.random() < 0.3:
+                forms.append(forms[0].rstrip(b"="))
+            for m in forms:
+                tags = ["foreign-len", "foreign-len-" + tg, "foreign-len-%s" % ("short" if len(b) < 84 else "long")]
+                cases.append(KCase("sk_try", s=m, tags=tags,
+                                   oracle=(lambda r, n=len(b): None if r["code"] != 0 else
+                                           ("only base64 strings of exactly 84 bytes are well-formed private keys (this one has %d)" % n, r["raw"][:200]))))
+                cases.append(KCase("sk_unlock", s=m, pw=pw, tags=tags, oracle=must_fail("a string of %d bytes instead of 84" % len(b))))
+        # the same strings as the PrivateKey of a keyring entry: the parser against the model (Malformed private key)
+        pub = c15_enc_pub(ctx.rbytes(32))
+        for b in [blob, blob + b"\x00", blob + ctx.rbytes(rng.randrange(2, 90)), blob + blob, blob[:83], blob[:rng.randrange(1, 83)]]:
+            cases.append(KCase("kr_parse", text=key_block(b"zed", pub, base64.b64encode(b)), tags=["foreign-len", "foreign-len-keyring"]))
+    return cases
+
+
+def c15_enc_pub(pk):
+    return base64.b64encode(pk + hashlib.sha256(pk).digest()[:4])
+
+
+def c15_proc_checks(self, ctx, foreign):
+    """the real process on strings of the independent writer: key extract-pub / change-pass, and a keyring that holds them"""
+    rng = ctx.rng
+    ok_utf8 = [f for f in foreign if c15_envable(f[2])]
+    special = [f for f in ok_utf8 if f[0] in ("zero", "ff", "const")]
+    rest = [f for f in ok_utf8 if f[0] not in ("zero", "ff", "const")]
+    picks = special + (rest if ctx.thorough() else rng.sample(rest, min(2, len(rest))))
+    if not picks:
+        return
+    pks = [unhex(r.get("out", "-")) for r in lib_ops(ctx.bin, ["xpub " + hexs(f[1]) for f in picks])]
+    w = World(prefix="kv_c15_")
+    try:
+        jobs = []          # (kind, f, pk, argv, env, extra)
+        for f, pk in zip(picks, pks):
+            label, sk, pw, salt, blob = f
+            R = base64.b64encode(blob).decode()
+            jobs.append(("extract", f, pk, ["key", "extract-pub", R, "--env-pass"], env_pw(pw), None))
+        # strings of other lengths with the RIGHT password
+        label, sk, pw, salt, blob = picks[-1] if rest else picks[0]
+        pk_last = pks[-1] if rest else pks[0]
+        odd = [blob + b"\x00", blob + ctx.rbytes(2), blob + blob, blob + ctx.rbytes(rng.randrange(3, 60)), blob[:83], blob[:rng.randrange(36, 83)],
+               ctx.rbytes(1) + blob]
+        for b in odd:
+            S = base64.b64encode(b).decode()
+            jobs.append(("extract-odd", (label, sk, pw, salt, b), pk_last, ["key", "extract-pub", S, "--env-pass"], env_pw(pw), None))
+            jobs.append(("chpass-odd", (label, sk, pw, salt, b), pk_last, ["key", "change-pass", S, "--env-pass"], env_pw(pw, b"a new password"), None))
+        # keyrings: a conforming foreign key (special salt) as sender and recipient; an over-long one as sender
+        f0, pk0 = picks[0], pks[0]
+        w.write("pt", ctx.rbytes(300))
+        w.write("kr_foreign", key_block(b"zed", c15_enc_pub(pk0), base64.b64encode(f0[4])))
+        jobs.append(("kr-enc", f0, pk0, ["encrypt", "pt", "-t", "zed", "-f", "zed", "-o", "ct", "-k", "kr_foreign", "--env-pass"], env_pw(f0[2]), None))
+        for i, tail in enumerate([b"\x00", f0[4], ctx.rbytes(rng.randrange(2, 40))]):
+            w.write("kr_long%d" % i, key_block(b"zed", c15_enc_pub(pk0), base64.b64encode(f0[4] + tail)))
+            jobs.append(("kr-enc-odd", f0, pk0, ["encrypt", "pt", "-t", "zed", "-f", "zed", "-o", "ct_long%d" % i, "-k", "kr_long%d" % i, "--env-pass"],
+                         env_pw(f0[2]), ("ct_long%d" % i, len(tail))))
+        with ThreadPoolExecutor(max_workers=NPROC) as ex:
+            runs = list(ex.map(lambda j: w.run(j[3], env=j[4]), jobs))
+        for (kind, f, pk, argv, env, extra), r in zip(jobs, runs):
+            label, sk, pw, salt, blob = f
+            ctx.evaluations += 1
+            self.count(ctx, "gen:foreign-proc-" + kind)
+            desc = [r.describe()]
+            if kind == "extract":
+                want = b"PublicKey = " + c15_enc_pub(pk) + b"\n"
+                proc_judge(ctx, r.rc == 0 and r.out == want, "extract-pub of a key locked by a conforming implementation (salt %s, key %s)" % (salt.hex(), sk.hex()),
+                           desc, "exit 0 and stdout %r" % want, "exit %d stdout %r" % (r.rc, r.out[:200]))
+            elif kind in ("extract-odd", "chpass-odd"):
+                leaked = b"PublicKey" in r.out or b"PrivateKey" in r.out
+                proc_judge(ctx, r.rc == 1 and not leaked, "a private-key string of %d bytes (84 expected) with the right password" % len(blob),
+                           desc, "an error exit and no key on stdout", "exit %d stdout %r" % (r.rc, r.out[:200]))
+            elif kind == "kr-enc":
+                proc_judge(ctx, r.rc == 0 and w.read("ct") is not None, "encrypt with a sender key locked by a conforming implementation (salt %s)" % salt.hex(),
+                           desc, "exit 0 and a ciphertext", "exit %d" % r.rc)
+                if r.rc == 0:
+                    d = w.run(["decrypt", "ct", "-t", "zed", "-o", "back", "-k", "kr_foreign", "--env-pass"], env=env_pw(pw))
+                    ctx.evaluations += 1
+                    proc_judge(ctx, d.rc == 0 and w.read("back") == w.read("pt"), "decrypt with a recipient key locked by a conforming implementation (salt %s)" % salt.hex(),
+                               desc + [d.describe()], "exit 0 and the plaintext", "exit %d" % d.rc)
+            elif kind == "kr-enc-odd":
+                outf, extra_n = extra
+                proc_judge(ctx, r.rc == 1 and w.read(outf) is None, "a keyring whose PrivateKey carries %d bytes after the 84th, used as the sender key with the right password" % extra_n,
+                           desc, "an error exit and no output file", "exit %d, output file %s" % (r.rc, "written" if w.read(outf) is not None else "absent"))
+    finally:
+        w.close()
+
+
 class C15(KProp):
     id = "C15"
     rule = ("cases: lock/unlock round trips for 19 (key, password, salt) triples (empty, 63/64/65/200-byte, non-UTF-8 and non-ASCII "
@@ -1036,7 +1303,12 @@ class C15(KProp):
             "84-byte blob (quick: one random bit of every byte, thorough: all 672) re-encoded; strings of every length 0..130, "
             "URL-safe alphabet, padding and non-canonical variants through EncodedSk::try_from and unlock; layout oracle: "
             "decoded string = 65 67 6B 30 || salt || ChaCha20-Poly1305(scrypt(pw, salt, 32768, 8, 1), nonce 0, ad = version) "
-            "recomputed with Python's scrypt and the library's seal; non-trivial = all")
+            "recomputed with Python's scrypt and the library's seal; strings of an independent writer (OpenSSL scrypt + RFC 8439 AEAD "
+            "written in Python): salts of special shape (all-zero, all-ff, constant, one bit / one byte set, half zero, equal to the key, ...) "
+            "through try_from / unlock / lock (string equality both ways) / wrong password / one salt bit flipped; conforming blobs cut to "
+            "every kind of shorter length and followed or preceded by zero / ff / random / copied bytes (85, 86, .. 168 ..) through try_from, "
+            "unlock with the right password and the keyring parser; the real process (key extract-pub, key change-pass, encrypt/decrypt with "
+            "a keyring holding such strings) on them; non-trivial = all")
     assumptions = ["scrypt at N=32768 is not evaluated in Coq: the model takes the key from a table filled by the implementation's "
                    "scrypt (cross-checked here against Python hashlib.scrypt = OpenSSL)",
                    "AEAD unforgeability is not proved; tamper evidence is observed on every flipped bit"]
@@ -1137,7 +1409,14 @@ class C15(KProp):
             cases.append(KCase("sk_try", s=m, oracle=tryor, tags=["malformed"]))
             if m != S:
                 cases.append(KCase("sk_unlock", s=m, pw=pw, oracle=must_fail("a string of another length/alphabet"), tags=["malformed"]))
+        # strings of an INDEPENDENT writer: salts of special shape; every length around 84; the real process on them
+        fcases, foreign = c15_foreign_cases(self, ctx)
+        cases += fcases
+        if foreign:
+            cases += c15_length_cases(self, ctx, foreign)
         self.run_kcases(ctx, cases)
+        if foreign:
+            c15_proc_checks(self, ctx, foreign)
         ctx.search_note = "direct oracle over all %d cases" % ctx.evaluations
 
 
